@@ -49,7 +49,7 @@ func exec(op string) (res string) {
 		return gocql.VerifHash("random", k)
 	case "ordlt":
 		return fmt.Sprint(gocql.VerifHashLess("ordered", hx(1), hx(2)))
-	case "parsem":
+	case "parsem", "parsemx":
 		return gocql.VerifParseToken("murmur3", string(hx(1)))
 	case "parser":
 		return gocql.VerifParseToken("random", string(hx(1)))
@@ -325,8 +325,15 @@ func main() {
 	}
 	for i := 0; i < 3000*mult; i++ {
 		s := decString(r)
-		op := "parsem " + vh.Hex([]byte(s))
-		out.Case(op, exec(op), "parsem", true)
+		pn := "parsem"
+		if i%5 == 0 {
+			s = boundaryToken(r)
+		}
+		if !canonicalInt64(s) {
+			pn = "parsemx" // malformed / out of range / non-canonical: not constrained by the property
+		}
+		op := pn + " " + vh.Hex([]byte(s))
+		out.Case(op, exec(op), pn, true)
 		t := decString(r)
 		if i%3 == 0 {
 			s, t = boundaryToken(r), boundaryToken(r)
